@@ -96,7 +96,7 @@ STREAM(ca_prog) {
   // m >= 8: below that some constructors take a shortcut that performs no CPU_SUPPORTS query, so the
   // 'a constructor ran' observation would be blind (the output oracle still covers small m in the other streams)
   const uint32_t MS[] = {8, 16, 32, 64, 128, 256, 8, 16, 32};
-  const double DIVS[] = {1.0, 2.0, 4.0, 0.5, 8.0};
+  const double DIVS[] = {1.0, 2.0, 4.0, 0.5, -4.0};   // -4.0: same exponent as 4.0 (a key on the exponent alone is not enough)
   const uint32_t BNDS[] = {50, 40, 63, 52, 50};
   const uint32_t OVHS[] = {18, 10, 18, 12};
   for (auto& f : F) {
@@ -174,7 +174,7 @@ STREAM(ca_small) {
   auto F = fns();
   int ncalls = thorough ? 300 : 100;
   const uint32_t MS[] = {1, 2, 4, 8, 16, 8, 4, 8, 16};
-  const double DIVS[] = {1.0, 2.0, 4.0, 0.5, 8.0};
+  const double DIVS[] = {1.0, 2.0, 4.0, -2.0, -4.0};
   const uint32_t BNDS[] = {50, 40, 63, 52, 50};
   const uint32_t OVHS[] = {18, 10, 18, 12};
   for (auto& f : F) {
@@ -230,6 +230,31 @@ STREAM(ca_small) {
       if (p.m < 8) out.count("calls_m_below_8");
     }
     fprintf(out.ops, "ca nop ca_small %s calls=%d", f.name, ncalls);
+    fprintf(out.real, "nop");
+    out.endcase(verdict);
+  }
+}
+
+// the lazily filled per-dimension slot arrays of the convenience functions at the largest dimensions (index log2 m)
+STREAM(ca_bigdim) {
+  (void)rng;
+  for (uint32_t lg : (thorough ? std::vector<uint32_t>{16, 17, 18, 20} : std::vector<uint32_t>{17, 18})) {
+    const uint32_t m = 1u << lg;
+    std::vector<double> d(2 * (size_t)m), e(2 * (size_t)m), r(2 * (size_t)m);
+    for (size_t i = 0; i < d.size(); i++) { d[i] = (double)((i * 2654435761u) & 0xffff) / 64.0; e[i] = (double)(i & 0xff) / 8.0; }
+    std::vector<double> d0 = d;
+    reim_fft_simple(m, d.data());
+    { auto* t = new_reim_fft_precomp(m, 0); reim_fft(t, d0.data()); free(t); }
+    std::string verdict = memcmp(d.data(), d0.data(), d.size() * 8) ? "FAIL C15 reim_fft_simple differs from a fresh table at a large dimension" : "ok";
+    reim_ifft_simple(m, d.data());
+    reim_fftvec_mul_simple(m, r.data(), d.data(), e.data());
+    reim_fftvec_addmul_simple(m, r.data(), d.data(), e.data());
+    cplx_fft_simple(m, d.data());
+    cplx_ifft_simple(m, d.data());
+    std::vector<int64_t> z(2 * (size_t)m, 5);
+    reim_from_znx64_simple(m, 50, d.data(), z.data());
+    reim_to_znx64_simple(m, 1.0, 63, z.data(), d.data());
+    fprintf(out.ops, "ca nop ca_bigdim log2m=%u", lg);
     fprintf(out.real, "nop");
     out.endcase(verdict);
   }
